@@ -80,6 +80,10 @@ Args6 == { A(<<>>, "INF", <<>>, "INF", FALSE, FALSE), A(<<>>, "INF", <<>>, "INF"
            A(<<1>>, "EXC", <<1,1,1,1,1,1,1,1,5,5>>, "INC", FALSE, FALSE), A(<<1>>, "INC", <<1,1,1,1,1,1,1,1,0>>, "INC", TRUE, FALSE),
            A(<<>>, "INF", <<>>, "INF", TRUE, TRUE) }
 K4s == { <<1>>, <<2>>, <<3>>, <<4>> }
+\* F21: the layer's root border {1, 2, 3} is full; the 4th key splits it ({1, 2} | {3, 4}); removing 1 and 2 empties the left border, the interior root collapses
+K6y == { <<>>, <<2>>, <<1,1,1,1,1,1,1,1,1>>, <<1,1,1,1,1,1,1,1,2>>, <<1,1,1,1,1,1,1,1,3>>, <<1,1,1,1,1,1,1,1,4>> }
+B6y == K6y \ { <<1,1,1,1,1,1,1,1,4>> }
+Args6y == { A(<<>>, "INF", <<>>, "INF", FALSE, FALSE), A(<<>>, "INF", <<>>, "INF", TRUE, FALSE) }
 \* F20: the layer-0 border {"", 1, link} and the layer's root border {1, 2, 3} are both full; the 4th key of each splits it
 K7x == { <<>>, <<1>>, <<2>>, <<1,1,1,1,1,1,1,1,1>>, <<1,1,1,1,1,1,1,1,2>>, <<1,1,1,1,1,1,1,1,3>>, <<1,1,1,1,1,1,1,1,4>> }
 B7x == K7x \ { <<2>>, <<1,1,1,1,1,1,1,1,4>> }
